@@ -22,28 +22,40 @@ SET_LAYOUTS = {
     False: ['sh.set.after_handler', 'sh.set.after_data'],
     True: ['sh.set.after_handler_clear', 'sh.set.after_data', 'sh.set.after_handler'],
 }
+DTOR_LAYOUTS = {
+    False: ['sh.dtor.after_set_interrupter', 'sh.dtor.after_stop1', 'sh.dtor.after_handler0', 'sh.dtor.after_msg_size0', 'free'],
+    True: ['sh.dtor.after_set_interrupter', 'sh.dtor.after_handler0', 'sh.dtor.after_msg_size0', 'free'],   # no `stop_ = 1`
+}
 LAYOUT_NAME = {(False, False): 'pinned', (True, False): 'ctorfix', (False, True): 'regfix', (True, True): 'fixed'}
 NSTEPS = {'C': 7, 'R': 2, 'W': 1, 'D': 5, 'N': 1}
 CTOR_NAMES = CTOR_LAYOUTS[False]
 SET_NAMES = SET_LAYOUTS[False]
 
 
-def set_layout(ctor_fixed, reg_fixed):
-    global CTOR_NAMES, SET_NAMES
+def set_layout(ctor_fixed, reg_fixed, dtor_fixed=False):
+    global CTOR_NAMES, SET_NAMES, DTOR_NAMES
     CTOR_NAMES = CTOR_LAYOUTS[ctor_fixed]
     SET_NAMES = SET_LAYOUTS[reg_fixed]
+    DTOR_NAMES = DTOR_LAYOUTS[dtor_fixed]
     NSTEPS['R'] = len(SET_NAMES)
+    NSTEPS['D'] = len(DTOR_NAMES)
+
+
+def layout_name(cf, rf, df):
+    return LAYOUT_NAME[(bool(cf), bool(rf))] + ('+dtor' if df else '')
 
 
 def detect_layout(exe):
     """run `C R:1:1 D` without signals on the real code and read the order of the stores off the hook names"""
-    p = subprocess.run([exe, '3'], input='bsd C R:1:1 D |\n', capture_output=True, text=True)
+    p = subprocess.run([exe, '3,5'], input='bsd C R:1:1 D |\n', capture_output=True, text=True)
     names = [t.split('[')[0] for t in p.stdout.strip().split(' ')]
     ctor = [n for n in names if n.startswith('sh.ctor.')]
     sets = [n for n in names if n.startswith('sh.set.')]
+    dt = [n for n in names if n.startswith('sh.dtor.') or n == 'free']
     cf = [k for k, v in CTOR_LAYOUTS.items() if v == ctor]
     rf = [k for k, v in SET_LAYOUTS.items() if v == sets]
-    return (cf[0] if cf else None), (rf[0] if rf else None), names
+    df = [k for k, v in DTOR_LAYOUTS.items() if v == dt]
+    return (cf[0] if cf else None), (rf[0] if rf else None), (df[0] if df else None), names
 DTOR_NAMES = ['sh.dtor.after_set_interrupter', 'sh.dtor.after_stop1', 'sh.dtor.after_handler0',
               'sh.dtor.after_msg_size0', 'free']
 MSGLEN = 18
@@ -55,7 +67,7 @@ ALL_COUNTEREXAMPLES = [   # (theorem, case, expected oracle class, layout aspect
     ('C15_oldorder_counterexample_mispaired_reregistration', 'bsd C R:1:1 R:2:2 | 10:I', 'sethandler-window:mispaired:new-callback-old-data', 'reg'),
     ('C15_oldorder_counterexample_third_no_exit_ctor_window', 'bsd C W | 5:I 7:I 7:I', 'ctor-window:third-no-exit', 'ctor'),
     ('C15_oldorder_counterexample_early_exit_ctor_window', 'bsd C W | 5:I 5:I', 'ctor-window:early-exit', 'ctor'),
-    ('C15_counterexample_third_no_exit_across_teardown', 'bsd C W D W | 8:I 8:I 13:I', 'across-teardown:third-no-exit', 'any'),
+    ('C15_counterexample_third_no_exit_across_teardown', 'bsd C W D W | 8:I 8:I 13:I', 'across-teardown:third-no-exit', 'dtor'),
 ]
 COUNTEREXAMPLES = [c[:3] for c in ALL_COUNTEREXAMPLES]
 
@@ -206,6 +218,23 @@ def gen_cases(ck):
                     cases.append(('enum-inherited-ign', '%s/%s/ign %s | %s' % (mode, out, prog, sch)))
                     cnt += 1
                 enum_desc.append('%s/%s/%s/ign/k=%d/%s:%d' % (prog.replace(' ', ''), mode, out, k, kinds.__name__, cnt))
+    # re-entrance: a second signal raised from inside the first one's handler, at the places reachable without call-outs
+    # in HandleSigInt (inside write(2), inside the callback, inside the re-arming signal()); alone and after one earlier signal
+    for prog in (FAMILY[0], FAMILY[1]):
+        n = nsteps(prog)
+        cnt = 0
+        for mode in ('bsd', 'sysv'):
+            for gap in range(n + 1):
+                for g in 'IT':
+                    for g2 in 'IT':
+                        for pl in 'wcr':
+                            cases.append(('enum-nested', '%s %s | %d:%s+%s@%s' % (mode, prog, gap, g, g2, pl)))
+                            cnt += 1
+                            if mode == 'bsd' or thorough:
+                                for g0 in (range(gap + 1) if thorough else range(max(0, gap - 2), gap + 1)):
+                                    cases.append(('enum-nested', '%s %s | %d:I %d:%s+%s@%s' % (mode, prog, g0, gap, g, g2, pl)))
+                                    cnt += 1
+        enum_desc.append('%s/nested/%d' % (prog.replace(' ', ''), cnt))
     # the registration sequence real drivers perform: mp::BackendApp (InitHandlers / destructor) around a StdBackend
     # (RunFromNLFile: ReadNL, SetupTimerAndInterrupter -> SetupInterrupter -> SetInterrupter(interrupter()), Solve, Report)
     for var in ('APP', 'APPA', 'APPE', 'APPX', 'APPU'):
@@ -323,6 +352,9 @@ def oracle(case, impl):
         if hd.startswith('!'):
             g = hd[1]
             a = t['args'] or {}
+            # "<g>+<g2><place>": g2 was raised from inside the handler of g (re-entrance; places outside the two count windows)
+            nested = hd[3] if len(hd) >= 5 and hd[2] == '+' else None
+            nested_ran = nested is not None and a.get('brk') == str(2 * MSGLEN)
             # where are we?
             cur = expected[pos] if pos < len(expected) else None
             in_reg = cur is not None and cur[1].startswith('R') and cur[2] >= 1     # between the first and the last store
@@ -336,13 +368,19 @@ def oracle(case, impl):
             installed_strict = installed_obj[g] or (stop0_done and st[g] == '1')
             if 'killed' in a:
                 terminated = True
-                if ever_installed[g]:
-                    bad.append(('killed-after-install', 'signal %s handled by the default action although the handler had been installed' % g))
+                kg = a['killed'] if a['killed'] in ('I', 'T') else g      # which signal met the default action
+                if nested == g and kg == g and mode.startswith('sysv') and ever_installed[g]:
+                    pass      # SysV signal(): the same signal inside its own handler meets the default action (platform semantics)
+                elif ever_installed[kg]:
+                    bad.append(('killed-after-install', 'signal %s handled by the default action although the handler had been installed' % kg))
                 elif obj_phase in ('body', 'dtor'):
                     bad.append(('killed-while-installed', 'signal %s handled by the default action although a handler object is fully constructed' % g))
                 break
             brk = a.get('brk', '')
-            if brk_observable:
+            if brk_observable and nested is not None:
+                if brk not in ('0', str(MSGLEN), str(2 * MSGLEN)):
+                    bad.append(('break-text-garbled', 'break text output %r' % brk))
+            elif brk_observable:
                 if brk not in ('0', str(MSGLEN)):
                     bad.append(('break-text-garbled', 'break text output %r' % brk))
                 if obj_phase == 'body' and brk != str(MSGLEN):
@@ -353,6 +391,8 @@ def oracle(case, impl):
             rec = {'g': g, 'pos': pos, 'ctor_window': obj_phase == 'ctor' and not stop0_done, 'stop1_mark': stop1_seen_since}
             if installed_strict:
                 counted.append(rec)
+                if nested_ran and (installed_obj[nested] or (stop0_done and st[nested] == '1')):
+                    counted.append(dict(rec, g=nested))
             if 'exit' in a:
                 terminated = True
                 if a['exit'] != '1':
@@ -375,7 +415,7 @@ def oracle(case, impl):
                             (len(counted), [c['pos'] for c in counted])))
             # callback
             cbs = [] if a.get('cb', '-') == '-' else [tuple(int(x) for x in c.split(':')) for c in a['cb'].split('+')]
-            if len(cbs) > 1:
+            if len(cbs) > (2 if nested_ran else 1):
                 bad.append(('callback-twice', 'callbacks %s for one signal' % cbs))
             if obj_phase == 'body' or (obj_phase == 'dtor' and not dtor_handler_cleared):
                 allowed = set()
@@ -568,7 +608,7 @@ def run_impl(exe, lines, shards, app_exe=None):
 
 
 def run_impl_one(exe, lines, shards, extra_args, tag):
-    exe_args = [exe, str(NSTEPS['R'])] + list(extra_args)
+    exe_args = [exe, '%d,%d' % (NSTEPS['R'], NSTEPS['D'])] + list(extra_args)
     os.makedirs(os.path.join(BUILD, 'c15'), exist_ok=True)
     chunks = [lines[i::shards] for i in range(shards)]
     procs = []
@@ -775,7 +815,7 @@ def coverage_report(res, label):
     return '\n'.join(out), mt
 
 
-N_THEOREMS = 36
+N_THEOREMS = 43
 CURRENT_LAYOUT = 'fixed'     # = Layout.current in lean/MpVerif/C15/Model.lean (the order the main theorems are stated for)
 
 
@@ -817,17 +857,17 @@ def run(ck):
     exe = build_harness(ck)
     drv = ck.driver('drv_c15')
     global COUNTEREXAMPLES
-    cf, rf, names = detect_layout(exe)
-    layout = LAYOUT_NAME.get((cf, rf))
+    cf, rf, df, names = detect_layout(exe)
+    layout = layout_name(cf, rf, df) if None not in (cf, rf, df) else None
     if layout is None:
         # neither the pinned order nor a proposed repair: keep the pinned model; the correspondence and the shape
         # check of the oracle will report exactly where the order of the stores differs
         ck.log('store order of the real code is not one the model knows: %s' % names)
-        cf, rf = bool(cf), bool(rf)
-        layout = LAYOUT_NAME[(cf, rf)]
-    set_layout(cf, rf)
+        cf, rf, df = bool(cf), bool(rf), bool(df)
+        layout = layout_name(cf, rf, df)
+    set_layout(cf, rf, df)
     COUNTEREXAMPLES = [c[:3] for c in ALL_COUNTEREXAMPLES
-                       if c[3] == 'any' or (c[3] == 'ctor' and not cf) or (c[3] == 'reg' and not rf)]
+                       if c[3] == 'any' or (c[3] == 'ctor' and not cf) or (c[3] == 'reg' and not rf) or (c[3] == 'dtor' and not df)]
     ck.log('store order observed in the real code: layout %s' % layout)
     ck.cov['layout_observed'] = layout
     ck.cov['layout_of_main_theorems'] = CURRENT_LAYOUT
@@ -835,11 +875,11 @@ def run(ck):
         'pinned': 'OLD store order (both repairs reverted): only C15_anyorder_* apply; ctor-window and SetHandler-window defects are back',
         'ctorfix': 'SetHandler repair missing: C15_pairing does not apply, SetHandler-window defect is back',
         'regfix': 'constructor repair missing: C15_no_lost / C15_no_early_exit / C15_third_exits_partial do not apply, ctor-window defect is back',
-        'fixed': 'main theorems C15_no_lost, C15_pairing, C15_no_early_exit (full) and C15_third_exits_partial apply; open finding: across teardown'}[layout]
+        'fixed': 'main theorems C15_no_lost, C15_pairing, C15_no_early_exit (full) and C15_third_exits_partial apply; open finding: across teardown'}.get(layout, 'destructor repair present (no stop_ = 1): C15_order_third_exits_full applies; Layout.current must be updated')
     cases, enum_desc = gen_cases(ck)
     lines = [l for _, l in cases]
     ck.log('%d cases (%s)' % (len(lines), ', '.join('%s=%d' % (o, sum(1 for x, _ in cases if x == o))
-                                                        for o in ['corpus', 'counterexample', 'enum', 'enum-stdout', 'enum-inherited-ign', 'enum-backendapp', 'enum-extra', 'random', 'malformed'])))
+                                                        for o in ['corpus', 'counterexample', 'enum', 'enum-stdout', 'enum-inherited-ign', 'enum-nested', 'enum-backendapp', 'enum-extra', 'random', 'malformed'])))
     if os.environ.get('VERIF_COVERAGE'):
         sel = os.environ.get('VERIF_COVERAGE')
         old_origins = ('corpus', 'counterexample', 'enum', 'enum-extra', 'random', 'malformed')
@@ -1062,7 +1102,7 @@ def run(ck):
                                  {'theorem': fdecl, 'module': 'MpVerif.C15.Props',
                                   'searched': '%d schedules on the real code, none violates the property' % len(lines)}, found_input=False)
     ck.assumptions += [
-        'signals are delivered on the interrupted thread and HandleSigInt is not re-entered while it runs (nested delivery is not modelled)',
+        'signals are delivered on the interrupted thread; ONE nested delivery inside HandleSigInt is modelled (Reentrant.lean: local theorems, counterexamples for the two count windows) and exercised on the real code at the places reachable without call-outs (inside write, the callback, the re-arm); the whole-history theorems are stated without re-entrance; deeper nesting is not modelled',
         'a store to std::atomic<T> / volatile sig_atomic_t is one indivisible program step; delivery inside a store or inside write(2) is not modelled',
         'write(2) to fd 1 either succeeds completely or fails (both modelled and exercised: fd 1 = memfd, pipe, /dev/null, closed, /dev/full, read-only); partial writes are not modelled; the callback itself returns (its return value is ignored by HandleSigInt)',
         'signal(2) semantics: both the glibc/BSD one and the SysV reset-on-entry one are modelled and exercised (through an interposed ::signal in the harness)',
@@ -1086,9 +1126,9 @@ def replay(ck, path):
         return 1
     exe = build_harness(ck)
     drv = ck.driver('drv_c15')
-    cf, rf, names = detect_layout(exe)
-    set_layout(bool(cf), bool(rf))
-    layout = LAYOUT_NAME[(bool(cf), bool(rf))]
+    cf, rf, df, names = detect_layout(exe)
+    set_layout(bool(cf), bool(rf), bool(df))
+    layout = layout_name(cf, rf, df)
     il = run_impl(exe, [case], 1, build_app_harness(ck) if is_app(case) else None)[0]
     ml = run_model(drv, [case], layout)[0]
     if is_app(case):
